@@ -1,4 +1,82 @@
-import LZ4V.Spec.Frame
-/-! # C08 — property theorems (in progress) -/
+import LZ4V.Proofs.FrameDProof
+import LZ4V.Proofs.StreamLProof
+/-!
+# C08 — frame decoding: header acceptance, no false success
+
+* **Header acceptance = specification, exactly.**  `Model/FrameD.lean` mirrors `LZ4F_decodeHeader` statement by statement
+  (the C's shifts and masks, bytes read by index, `LZ4F_getBlockSize` regenerated from the source).  It accepts a header
+  exactly when the specification parser does, with the same fields and the same size, for every byte string and every
+  checksum function.  Tie: all 65536 FLG/BD combinations with right and wrong header checksum, plus mutated frames, are
+  fed to the real `LZ4F_decompress`; the judge runs the model on the same bytes and compares acceptance and, on
+  rejection, the LZ4F error code.
+* **No false success on truncation.**  Every strict prefix of a valid frame is rejected by the specification
+  (`truncated_frame_rejected`); the real decoder's verdict on every input is compared with the specification's.
+* **Complete ⇒ integrity.**  A frame the specification accepts has matching block/content checksums and declared size.
+
+Chunking independence, progress and memory safety of the staged `LZ4F_decompress` machine are decided by the
+correspondence only (every input decoded under 4–6 chunking policies incl. 1-byte feeds and tiny output capacities, ASan,
+exact-size buffers): the dStage machine itself is not modelled (see DESIGN.md, partial).
+-/
 namespace LZ4V.C08
+open LZ4V.Spec.FrameL LZ4V.Model.FrameD
+open LZ4V.Spec.Frame (Header)
+
+/-- what `LZ4F_decodeHeader` accepts, the specification accepts, with the same header fields and header size -/
+theorem header_accepted_only_if_spec (E : Env) (src : Bytes) (hdr : Header) (size : Nat)
+    (h : decodeHeader E.hash src = .ok (.done hdr size)) : specHeader E src = .ok (hdr, src.drop size) :=
+  decodeHeader_sound E src hdr size h
+
+/-- what the specification accepts, `LZ4F_decodeHeader` accepts, with the same header fields and header size -/
+theorem header_accepted_if_spec (E : Env) (src : Bytes) (hdr : Header) (rest : Bytes)
+    (h : specHeader E src = .ok (hdr, rest)) : decodeHeader E.hash src = .ok (.done hdr (src.length - rest.length)) :=
+  decodeHeader_complete E src hdr rest h
+
+/-- every strict prefix of a valid frame is not a valid frame -/
+theorem truncated_frame_never_complete (E : Env) (dict : Bytes) (F : Nat) (f t u c : Bytes)
+    (hf : pFrame E dict F f = .ok (c, [])) (hsplit : f = t ++ u) (hu : u ≠ []) (F' : Nat) (x : Bytes × Bytes) :
+    pFrame E dict F' t ≠ .ok x := truncated_frame_rejected E dict F f t u c hf hsplit hu F' x
+
+/-- a frame is complete only with a matching content checksum (when present) and declared content size (when present) -/
+theorem complete_implies_integrity (E : Env) (dict : Bytes) (F : Nat) (s c r : Bytes) (h : pFrameBody E dict F s = .ok (c, r)) :
+    ∃ hdr r1 r2 crc, pHeader E s = .ok (hdr, r1) ∧ pBlocks E hdr dict F [] r1 = .ok (c, r2) ∧
+      takeN (if hdr.contentChecksum then 4 else 0) r2 = .ok (crc, r) ∧
+      (hdr.contentChecksum = true → E.hash c = le crc) ∧ (∀ n, hdr.contentSize = some n → n = c.length) := by
+  unfold pFrameBody Parser.bind at h
+  cases h1 : pHeader E s with
+  | error e => rw [h1] at h; cases h
+  | ok v1 =>
+    obtain ⟨hdr, r1⟩ := v1
+    rw [h1] at h
+    dsimp only at h
+    cases h2 : pBlocks E hdr dict F [] r1 with
+    | error e => rw [h2] at h; cases h
+    | ok v2 =>
+      obtain ⟨c2, r2⟩ := v2
+      rw [h2] at h
+      dsimp only at h
+      cases h3 : takeN (if hdr.contentChecksum then 4 else 0) r2 with
+      | error e => rw [h3] at h; cases h
+      | ok v3 =>
+        obtain ⟨crc, r3⟩ := v3
+        rw [h3] at h
+        dsimp only at h
+        by_cases hc : hdr.contentChecksum = true ∧ E.hash c2 ≠ le crc
+        · simp only [if_pos hc, Parser.fail] at h; cases h
+        · by_cases hs : hdr.contentSize.isSome = true ∧ hdr.contentSize ≠ some c2.length
+          · simp only [if_neg hc, if_pos hs, Parser.fail] at h; cases h
+          · simp only [if_neg hc, if_neg hs, Parser.pure, Except.ok.injEq, Prod.mk.injEq] at h
+            obtain ⟨rfl, rfl⟩ := h
+            refine ⟨hdr, r1, r2, crc, rfl, h2, h3, ?_, ?_⟩
+            · intro hcc
+              by_cases he : E.hash c2 = le crc
+              · exact he
+              · exact absurd ⟨hcc, he⟩ hc
+            · intro n hn
+              by_cases he : n = c2.length
+              · exact he
+              · exfalso
+                apply hs
+                rw [hn]
+                exact ⟨rfl, by intro h0; injection h0 with h0; exact he h0⟩
+
 end LZ4V.C08
